@@ -69,6 +69,30 @@ type fieldRowPtr struct { // embedded pointer
 	*FieldPrices
 }
 
+func fieldLocalRowA(in fch, name string) fch {
+	type Row struct {
+		Open  float64
+		Close float64
+	}
+	f, err := helper.Field[float64](helper.Map(in, func(x float64) *Row { return &Row{Open: x + 0.25, Close: x + 0.5} }), name)
+	if err != nil {
+		panic(err)
+	}
+	return f
+}
+
+func fieldLocalRowB(in fch, name string) fch {
+	type Row struct {
+		Close float64
+		Open  float64
+	}
+	f, err := helper.Field[float64](helper.Map(in, func(x float64) *Row { return &Row{Open: x + 0.25, Close: x + 0.5} }), name)
+	if err != nil {
+		panic(err)
+	}
+	return f
+}
+
 func helperCases() []hcase {
 	p07 := []int{0, 1, 2, 3, 4, 5, 6, 7}
 	p17 := []int{1, 2, 3, 4, 5, 6, 7}
@@ -276,7 +300,7 @@ func helperCases() []hcase {
 				}
 				return [][]float64{o}
 			}},
-		{name: "Field", arity: 1, params: []int{0, 1, 2, 3, 4, 5, 6, 7}, consumes: true, // p selects the row shape and the field
+		{name: "Field", arity: 1, params: []int{0, 1, 2, 3, 4, 5, 6, 7, 8, 9}, consumes: true, // p selects the row shape and the field
 			run: func(in []fch, p int) []fch {
 				must := func(f <-chan float64, err error) []fch {
 					if err != nil {
@@ -295,13 +319,21 @@ func helperCases() []hcase {
 				case 4, 5:
 					rows := helper.Map(in[0], func(x float64) *fieldRowHead { return &fieldRowHead{FieldPrices{x + 0.25, x + 0.5}, x + 100} })
 					return must(helper.Field[float64](rows, []string{"Close", "Volume"}[p-4]))
+				case 8:
+					// two distinct struct types that print the same name (local types called Row in two functions) with the
+					// fields in a different order: used one after the other in the same process
+					helper.Drain(fieldLocalRowA(helper.SliceToChan([]float64{1, 2}), "Close"))
+					return []fch{fieldLocalRowB(in[0], "Close")}
+				case 9:
+					helper.Drain(fieldLocalRowB(helper.SliceToChan([]float64{1, 2}), "Close"))
+					return []fch{fieldLocalRowA(in[0], "Close")}
 				default:
 					rows := helper.Map(in[0], func(x float64) *fieldRowPtr { return &fieldRowPtr{x + 100, &FieldPrices{x + 0.25, x + 0.5}} })
 					return must(helper.Field[float64](rows, []string{"Close", "Open"}[p-6]))
 				}
 			},
 			model: func(in [][]float64, p int) [][]float64 {
-				add := []float64{0.5, 0.5, 0.5, 0.25, 0.5, 100, 0.5, 0.25}[p]
+				add := []float64{0.5, 0.5, 0.5, 0.25, 0.5, 100, 0.5, 0.25, 0.5, 0.5}[p]
 				return apply1(in[0], func(x float64) float64 { return x + add })
 			}},
 		{name: "SliceToChan+ChanToSlice", arity: 1, params: none, consumes: true,
